@@ -153,6 +153,7 @@ class Lysosome:
         self._total_ingested = 0
         self._total_digested = 0
         self._total_recycled = 0
+        self._total_errors = 0
         self._by_type: dict[WasteType, int] = {t: 0 for t in WasteType}
 
         # Recycling bin (extracted useful data)
@@ -255,6 +256,7 @@ class Lysosome:
 
             except Exception as e:
                 errors.append(f"Failed to digest {waste.waste_type.value}: {e}")
+                self._total_errors += 1
 
         # Store recycled materials
         self._recycling_bin.update(recycled)
@@ -400,7 +402,10 @@ class Lysosome:
         if not self.silent:
             print(f"[Lysosome] Auto-digesting {len(self._queue)} items")
         # Process half the queue
-        self.digest(max_items=len(self._queue) // 2)
+        result = self.digest(max_items=len(self._queue) // 2)
+        for error in result.errors:
+            # ingest() has no caller to hand the DigestResult to: keep failed items accounted for
+            _logger.warning(f"Auto-digest: {error}")
 
     def get_statistics(self) -> dict:
         """Get lysosome statistics."""
@@ -409,6 +414,7 @@ class Lysosome:
             "total_ingested": self._total_ingested,
             "total_digested": self._total_digested,
             "total_recycled": self._total_recycled,
+            "total_errors": self._total_errors,
             "by_type": {t.value: c for t, c in self._by_type.items()},
             "recycling_bin_size": len(self._recycling_bin),
         }
